@@ -132,8 +132,12 @@ def _grid_case(case, out):
     with_self = mode in ('bound', 'class')
     if mode in ('bound_starself', 'class_starself'):
         ns = {}
-        exec('def meth(%s):\n    result = None\n    return result\n' %
-             _sig_src(0, 0, 1, mk, 'm'), ns)
+        # with and without a local variable (co_varnames is what the
+        # description is computed from)
+        exec('def meth(%s):\n    %s\n' % (
+            _sig_src(0, 0, 1, mk, 'm'),
+            'result = None\n    return result' if (ir + io) % 2 else 'pass'),
+            ns)
         mfunc = ns['meth']
     elif mode == 'bound_defself':
         ns = {}
@@ -229,7 +233,13 @@ def multi_strategy(draw):
         for e in range(nel):
             name = draw(st.sampled_from(['a', 'b', 'c', 'd', 'e', 'f']))
             kind = draw(st.sampled_from(['attr', 'meth', 'meth']))
-            elems.append([name, kind, draw(_sigs)])
+            # 4th element: the description carries a name of its own that
+            # differs from the name it is registered under (one description
+            # bound to two names, a description taken from another
+            # interface, Attribute("Word.")) - the interface's name counts
+            # (seed C17h)
+            elems.append([name, kind, draw(_sigs),
+                          draw(st.integers(0, 3)) == 0])
         ifaces.append({'bases': bases, 'elems': elems})
     cand = {}
     for name in 'abcdef':
@@ -265,9 +275,17 @@ def _multi_case(case, out):
     built = []
     for i, spec in enumerate(case['ifaces']):
         attrs = {}
-        for name, kind, sig in spec['elems']:
+        for el in spec['elems']:
+            name, kind, sig = el[:3]
+            alias = len(el) > 3 and el[3]
             if kind == 'attr':
-                attrs[name] = Attribute(name)
+                attrs[name] = Attribute('other_' + name if alias else name)
+            elif alias:
+                from zope.interface.interface import fromFunction
+                attrs[name] = fromFunction(
+                    _compile(name, _sig_src(*[int(x) for x in sig], 'i')),
+                    name='other_' + name)
+                out.tag('aliased_description')
             else:
                 attrs[name] = _compile(name, _sig_src(*[int(x) for x in sig],
                                                       'i'))
@@ -330,6 +348,7 @@ def _multi_case(case, out):
     exp = []
     if not case['tentative'] and not case['declared']:
         exp.append(('DoesNotImplement', None))
+
     br, bo, bv, bk = [int(x) for x in case['badsig']]
     for name, desc in expected_desc.items():
         how = case['cand'][name]
@@ -337,18 +356,18 @@ def _multi_case(case, out):
         if how == 'missing':
             if not is_method and vclass:
                 continue
-            exp.append(('BrokenImplementation', name))
+            exp.append(('BrokenImplementation', desc.getName()))
             continue
         if not is_method:
             continue
         if how == 'value':
-            exp.append(('BrokenMethodImplementation', name))
+            exp.append(('BrokenMethodImplementation', desc.getName()))
         elif how == 'property':
             if vclass:
                 continue   # cannot be judged without an instance
             # instance: the property yields 42; class object: the property
             # object itself - neither is callable
-            exp.append(('BrokenMethodImplementation', name))
+            exp.append(('BrokenMethodImplementation', desc.getName()))
         elif how == 'callable_obj':
             continue       # cannot be introspected: passes
         elif how == 'goodmeth':
@@ -361,7 +380,7 @@ def _multi_case(case, out):
                 getattr(cls if provider else cls(), name))
             shapes = _shapes(ir, io, iv, ik, br + bo)
             if not all(_binds(callsig, a, kw) for a, kw in shapes):
-                exp.append(('BrokenMethodImplementation', name))
+                exp.append(('BrokenMethodImplementation', desc.getName()))
     if len(exp) >= 2:
         out.nontrivial = True
     out.tag('faults_%d' % min(len(exp), 4), 'vmode_' + vmode)
